@@ -202,10 +202,10 @@ class SetItem(StateSpec):
     target = STATE + ".__setitem__"
 
     def configs(self):
-        return [dict(fork=f, val=v) for f in ("none", "ref", "copy") for v in ("value", "none")]
+        return [dict(fork=f, val=v, lf=l) for f in ("none", "ref", "copy") for v in ("value", "none") for l in (False, True)]
 
     def setup(self, cx, cfg):
-        s = make_state(cx, cfg["fork"], last_fork=False)
+        s = make_state(cx, cfg["fork"], last_fork=cfg["lf"])
         n = name_sv("name")
         v = val_sv("v") if cfg["val"] == "value" else None
         I = z3.Const("I", View)
@@ -236,8 +236,7 @@ class SetItem(StateSpec):
     def havoc(self, cx, st):
         s = st["self"]
         s.f["_values"].havoc(cx)
-        if s.f["auto_fork_type"] is not None:
-            s.f["_last_fork"] = SMap(cx, NAME, VAL, "fork")
+        s.f["_last_fork"] = SMap(cx, NAME, VAL, "fork") if s.f["auto_fork_type"] is not None else None
 
     def new_view(self, st):
         v = st["v"].e if st["v"] is not None else NONE
@@ -255,7 +254,8 @@ class SetItem(StateSpec):
                ("inv holds for the new view I[n := v]", inv(vals, I2))]
         fork = s.f["_last_fork"]
         if s.f["auto_fork_type"] is None:
-            res.append(("no fork taken when auto-fork is off", z3.BoolVal(fork is st["old_fork"])))
+            res.append(("with auto-fork off no fork is left: an older fork does not describe the state before this "
+                        "assignment, and reverting to it would restore stale derived values", z3.BoolVal(fork is None)))
         else:
             ok = isinstance(fork, SMap)
             res.append(("fork taken", z3.BoolVal(ok)))
@@ -263,6 +263,10 @@ class SetItem(StateSpec):
                 res.append(("fork = pre-assignment entries of n and of its transitive dependents",
                             z3.ForAll([m], z3.And(fork.has(m) == z3.Or(m == n, anc(n, m)),
                                                   z3.Implies(fork.has(m), fork.at(m) == old.at(m))))))
+                res.append(("the fork is consistent with the pre-assignment view (precondition of revert)",
+                            z3.ForAll([m], z3.Implies(fork.has(m), z3.And(
+                                z3.Implies(indep(m), fork.at(m) == I[m]),
+                                z3.Implies(z3.And(z3.Not(indep(m)), fork.at(m) != NONE), fork.at(m) == Sem(m, I)))))))
         return res
 
 
